@@ -3611,18 +3611,32 @@ class FuncS(ValueFunc):
                     base = 16
                     spec = spec[0:-1]
                 idx4 = spec.find(".")
-                if idx4 == -1:
-                    digits = -1
-                    width = int(spec or "0")
-                else:
-                    digits = int(spec[idx4+1:] or "0")
-                    width = int(spec[0:idx4] or "0")
+                try:
+                    if idx4 == -1:
+                        digits = -1
+                        width = int(spec or "0")
+                    else:
+                        digits = int(spec[idx4+1:] or "0")
+                        width = int(spec[0:idx4] or "0")
+                except ValueError:
+                    raise CklRuntimeError(
+                        ValueString("ERROR"),
+                        "Invalid format specification " + spec,
+                        pos,
+                    )
             node = parse_script(variable, pos.filename)
             value = node.evaluate(environment).asString().value
-            if base != 10:
-                value = f"{int(value):x}"
-            elif digits != -1:
-                value = str(round(float(value), digits))
+            try:
+                if base != 10:
+                    value = f"{int(value):x}"
+                elif digits != -1:
+                    value = str(round(float(value), digits))
+            except (ValueError, OverflowError):
+                raise CklRuntimeError(
+                    ValueString("ERROR"),
+                    "Cannot format " + value + " as a number",
+                    pos,
+                )
             while len(value) < width:
                 if leading:
                     value = " " + value
